@@ -136,6 +136,13 @@ func (c *Ctx) Explore(name string, typ *ast.FuncType, body *ast.BlockStmt, spec 
 	x := gea.New(c.P, name, typ, body, spec)
 	x.InlineCallee = c.inlinePolicy
 	x.Run()
+	if x.Trunc && len(x.Inlined) > 0 {
+		// following new helpers in place made the exploration too large (typically a helper
+		// with many effectful branches called in a loop): fall back to treating them as calls
+		c.Notes = append(c.Notes, fmt.Sprintf("exploration of %s with helpers followed in place exceeded %d abstract states; re-explored with the helpers as opaque calls", name, x.Limit))
+		x = gea.New(c.P, name, typ, body, spec)
+		x.Run()
+	}
 	if x.Trunc {
 		fail("exploration of %s exceeded %d abstract states", name, x.Limit)
 	}
